@@ -12,7 +12,7 @@ RULE = ("Cases: (stat) label vectors with K<=12 cycles of length 1..20 and -1 ga
         "(align) monotone wrapped phases of 2-8 whole cycles of 8..400 samples x quantity g_c(phase) "
         "(linear, sin, cos2, cubic polynomial; optionally a different affine transform per cycle) x npoints "
         "2..64 x interp_kind in {linear,quadratic,cubic} x cycles from the phase / explicit vector / Cycles "
-        "object / a shifted labelling whose cycles contain the phase wrap; (bin) phases in [0,2pi) x nbins 2..64 x 1-3 value columns. Oracle: direct per-label "
+        "object / a shifted labelling whose cycles contain the phase wrap; (bin) phases in [0,2pi) x nbins 2..64 (or the caller's non-uniform bin_edges) x 1-3 value columns x optional weights. Oracle: direct per-label "
         "computation; phase_align column c must equal g_c on the bin-centre grid (<=1e-9 for linear g, "
         "else within a classical interpolation bound on grid points inside the cycle's sampled range); "
         "bin b == mean of samples with e_b<=phase<e_b+1, NaN iff empty, for every b. Non-trivial: (stat) "
@@ -240,7 +240,15 @@ def bin_case(draw):
     x = np.round(rng.standard_normal((len(ip), max(ncols, 1))) * 5, 3)
     if ncols == 0:
         x = x[:, 0]
-    return {'ip': ip, 'x': x, 'nbins': nbins}
+    edges = None
+    if draw(st.integers(0, 3)) == 0:      # the caller's own (non-uniform) bin edges
+        inner = np.sort(rng.random(nbins - 1)) * TWO_PI
+        edges = np.unique(np.r_[0.0, inner, TWO_PI])
+        nbins = len(edges) - 1
+    weights = None
+    if x.ndim == 2 and draw(st.integers(0, 3)) == 0:
+        weights = np.round(0.1 + rng.random(len(ip)), 3)
+    return {'ip': ip, 'x': x, 'nbins': nbins, 'edges': edges, 'weights': weights}
 
 
 def oracle_bin(case, rec):
@@ -252,18 +260,26 @@ def oracle_bin(case, rec):
     with warnings.catch_warnings():
         warnings.simplefilter('ignore')
         try:
-            avg, var, centres = emd.cycles.bin_by_phase(ip.copy(), x.copy(), nbins=nbins)
+            kw = {}
+            if case.get('edges') is not None:
+                kw['bin_edges'] = np.asarray(case['edges'], dtype=float).copy()
+            if case.get('weights') is not None:
+                kw['weights'] = np.asarray(case['weights'], dtype=float).copy()
+            avg, var, centres = emd.cycles.bin_by_phase(ip.copy(), x.copy(), nbins=nbins, **kw)
         except Exception as e:
-            raise Violation('C14/bin_by_phase/raises/' + type(e).__name__, repr(e))
+            raise Violation('C14/bin_by_phase/raises/%s%s' % (type(e).__name__, '/custom-edges' if case.get('edges') is not None else ''), repr(e))
     avg = np.asarray(avg, dtype=float)
-    edges = np.linspace(0, TWO_PI, nbins + 1)
+    edges = np.linspace(0, TWO_PI, nbins + 1) if case.get('edges') is None else np.asarray(case['edges'], dtype=float)
+    w = None if case.get('weights') is None else np.asarray(case['weights'], dtype=float)
+    rec.cls('edges=' + ('default' if case.get('edges') is None else 'custom'))
+    rec.cls('weights=' + ('none' if w is None else 'given'))
     exp = np.full((nbins,) + x.shape[1:], np.nan)
     counts = np.zeros(nbins, dtype=int)
     for b in range(nbins):
         m = (ip >= edges[b]) & (ip < edges[b + 1])
         counts[b] = m.sum()
         if m.any():
-            exp[b] = x[m].mean(axis=0)
+            exp[b] = x[m].mean(axis=0) if w is None else (x[m] * w[m][:, None]).sum(axis=0) / w[m].sum()
     if avg.shape != exp.shape:
         raise Violation('C14/bin_by_phase/shape', '%r vs %r' % (avg.shape, exp.shape))
     for b in range(nbins):
